@@ -40,6 +40,10 @@ def models(tier):
             if res["coverage"].get(a, 0) == 0:
                 raise core.ToolError("vacuity: action %s of MC_IterImpl never taken" % a)
         out.append(("MC_IterImpl", res, consts))
+    # unbounded N and unbounded arguments: Apalache discharges an inductive invariant of the abstract contract
+    ap = core.apalache_inductive(core.SPEC + "/apalache", "ApaIter")
+    out.append(("ApaIter (Apalache, inductive invariant IndInv: Init => IndInv, IndInv /\\ Next => IndInv')",
+                dict(states=2, transitions=2, depth=1, wall=ap["wall"], coverage={}), dict(N="symbolic", n="symbolic")))
     return out
 
 
@@ -102,6 +106,7 @@ def run(tier, seed, rep):
                        "argument, resulting state)")
     rep.cov["samples"] = [dict(def_=e["def"], prof=e["prof"], call=e["call"], arg=e["bigk"] or e["n"], res=e["res"], len=e["len"], rest=e["rest"]) for e in calls[5:200:40] if e["op"] == "it"]
     rep.assumptions += ["W-bit word model: arithmetic only adds and compares with COUNT, so W=4/5 stands for W=64 while 2*COUNT < 2^W",
+                        "the Apalache run covers the abstract contract for symbolic N and arguments (2 proof obligations), the W-bit refinement is bounded",
                         "Send + Sync of the iterator type is decided by rustc on a generated assertion with T = Rc<u8>",
                         "usize arguments beyond N+1 are represented in the trace by their class (big)"]
     return rep
